@@ -81,6 +81,25 @@ fn clone_points(data: &[u8], whole: &[Ev]) -> Option<(String, String)> {
                 let i = rc.ev.iter().zip(&rec.ev[mark..]).position(|(x, y)| x != y).unwrap_or(rc.ev.len().min(rec.ev.len() - mark));
                 return Some(format!("a clone of the parser taken before byte {k} continues differently: event {i}: clone reports {:?}, the original {:?}", rc.ev.get(i), rec.ev.get(mark + i)));
             }
+            // the same snapshot restored into a used parser with clone_from
+            let mut p2 = anstyle_parse::Parser::<anstyle_parse::DefaultCharAccumulator>::new();
+            let mut scratch = Recorder::default();
+            for &b in b"\x1b[1;2;3;4;5;6;7;8;9;10;11;12;13;14;15;16;17;18;19;20;21;22;23;24;25;26;27;28;29;30;31;32;33;34   \x1b]a;b" {
+                p2.advance(&mut scratch, b);
+            }
+            let mut snap = anstyle_parse::Parser::<anstyle_parse::DefaultCharAccumulator>::new();
+            let mut r0 = Recorder::default();
+            for &b in &data[..k] {
+                snap.advance(&mut r0, b);
+            }
+            p2.clone_from(&snap);
+            let mut r2 = Recorder::default();
+            for &b in &data[k..] {
+                p2.advance(&mut r2, b);
+            }
+            if r2.ev[..] != rec.ev[mark..] {
+                return Some(format!("a parser restored with clone_from from a snapshot taken before byte {k} continues differently from the original"));
+            }
         }
         None
     });
